@@ -17,7 +17,7 @@
                  __stdcall/WINAPI/__cdecl, extern "Python") find nothing to rewrite.
    Domain: ASCII texts (Python's \s, \w, str.strip() agree with the classes below on
    code points < 128 except 0x1c-0x1f, which the generators do not produce). *)
-From Coq Require Import List NArith Bool Arith.
+From Coq Require Import List NArith ZArith Bool Arith.
 Import ListNotations.
 Open Scope N_scope.
 
@@ -380,35 +380,71 @@ Fixpoint stash_lines (ls : list text) (i : N) : list text * list text :=
 Definition remove_line_directives (s : text) : text * list text :=
   let (out, st) := stash_lines (split_lines s) 0 in (join_lines out, st).
 
-(* _put_back_line_directives (cparser.py:186-197) turns every failure of its replace() -- a directive-like
-   line that is not a placeholder, int() failing, an index out of range -- into CDefError *)
-Inductive exn := CDefError | Unmodelled.
+(* exception classes that occur inside _put_back_line_directives (cparser.py:186-197) *)
+Inductive exn := CDefError | AssertionError | IndexError | ValueError.
 Inductive result (A : Type) := Ok (a : A) | Err (e : exn).
 Arguments Ok {A} a.
 Arguments Err {A} e.
+
+(* Python's int(s) (base 10) on an ASCII str: blanks around, an optional sign, digits with single
+   underscores between digits; None = ValueError.  (A string of plain digits is read directly.) *)
+Fixpoint digits_us (acc : Z) (prev_digit : bool) (s : text) : option Z :=
+  match s with
+  | [] => if prev_digit then Some acc else None
+  | c :: r =>
+      if is_digit c then digits_us (acc * 10 + (Z.of_N c - 48)) true r
+      else if (c =? 95) && prev_digit then digits_us acc false r
+      else None
+  end.
+Definition py_int10 (s : text) : option Z :=
+  match undec s with
+  | Some n => Some (Z.of_N n)
+  | None =>
+      match strip_ws s with
+      | c :: r => if c =? 45 then option_map Z.opp (digits_us 0 false r)
+                  else if c =? 43 then digits_us 0 false r
+                  else digits_us 0 false (c :: r)
+      | [] => None
+      end
+  end.
+(* lst[i] with Python's negative indices; None = IndexError *)
+Definition py_index (st : list text) (i : Z) : option text :=
+  let n := Z.of_nat (length st) in
+  if (0 <=? i)%Z then nth_error st (Z.to_nat i)
+  else if (- n <=? i)%Z then nth_error st (Z.to_nat (n + i))
+  else None.
+
+(* the body of replace() before the fix's try/except: what it raises by itself *)
+Definition replace_raw (l : text) (st : list text) : result text :=
+  match starts_with s_lineat l with
+  | None => Err ValueError                        (* if not s.startswith('#line@'): raise ValueError *)
+  | Some num =>
+      match py_int10 num with
+      | None => Err ValueError                    (* int(s[6:]) *)
+      | Some i => match py_index st i with
+                  | None => Err IndexError        (* line_directives[...] *)
+                  | Some d => Ok d
+                  end
+      end
+  end.
+(* try: ... except (ValueError, IndexError): raise CDefError(...)  -- any other class would propagate *)
+Definition replace (l : text) (st : list text) : result text :=
+  match replace_raw l st with
+  | Err ValueError | Err IndexError => Err CDefError
+  | r => r
+  end.
 
 Fixpoint restore_lines (ls : list text) (st : list text) : result (list text) :=
   match ls with
   | [] => Ok []
   | l :: ls' =>
       if is_dirline l then
-        match starts_with s_lineat l with
-        | None => Err CDefError                   (* raise ValueError -> CDefError *)
-        | Some num =>
-            match undec num with
-            | None =>                              (* int(s[6:]) on something that is not [0-9]+ :
-                                                      ValueError -> CDefError, or Python's laxer int()
-                                                      grammar (sign, blanks, '_') which is not modelled *)
-                Err Unmodelled
-            | Some i =>
-                match nth_error st (N.to_nat i) with
-                | None => Err CDefError                (* IndexError -> CDefError *)
-                | Some d =>
-                    match restore_lines ls' st with
-                    | Ok out => Ok (d :: out)
-                    | Err e => Err e
-                    end
-                end
+        match replace l st with
+        | Err e => Err e
+        | Ok d =>
+            match restore_lines ls' st with
+            | Ok out => Ok (d :: out)
+            | Err e => Err e
             end
         end
       else
@@ -441,7 +477,7 @@ Definition preprocess (s : text) : result (text * macros) :=
 (* ------------------------------------------------------------------ for the correspondence *)
 
 Definition exn_code (e : exn) : N :=
-  match e with CDefError => 4 | Unmodelled => 9 end.
+  match e with CDefError => 4 | AssertionError => 1 | IndexError => 2 | ValueError => 3 end.
 (* (0, text, macros) or (code, [], []) *)
 Definition preprocess_out (s : text) : N * (text * list (text * text)) :=
   match preprocess s with
